@@ -26,7 +26,7 @@ theorem storeOutcome_K (i : Nat) (r : Res) (h : K a0 r.1) :
     K a0 (match r with
       | (x, none) => ok (if actionStatus x.l.c i = AStatus.pending then x.updC (fun c => setActionStatus c i .done) else x)
       | (x, some e) =>
-          if actionStatus x.l.c i = AStatus.pending then ok (x.updC (fun c => setActionStatus c i (.failed e))) else (x, some e)).1 := by
+          ok (if actionStatus x.l.c i = AStatus.pending then x.updC (fun c => setActionStatus c i (.failed e)) else x)).1 := by
   obtain ⟨y, ye⟩ := r
   cases ye with
   | none =>
@@ -35,7 +35,7 @@ theorem storeOutcome_K (i : Nat) (r : Res) (h : K a0 r.1) :
     · exact K.upd h _ (setActionStatus_same2 ..) (fun _ => (setActionStatus_fix ..).1)
     · exact h
   | some e =>
-    show K a0 (if actionStatus y.l.c i = AStatus.pending then ok (y.updC (fun c => setActionStatus c i (.failed e))) else (y, some e)).1
+    show K a0 (if actionStatus y.l.c i = AStatus.pending then y.updC (fun c => setActionStatus c i (.failed e)) else y)
     split
     · exact K.upd h _ (setActionStatus_same2 ..) (fun _ => (setActionStatus_fix ..).1)
     · exact h
